@@ -264,4 +264,118 @@ def b64Octets (s : Str) : List Nat :=
     | _ => []
   go t
 
+/-! ## F&O 3.1 section 19 — casting, for the numeric / string / boolean / untypedAtomic corner -/
+
+/-- canonical lexical form of a double for the cast to xs:string (F&O 19.1.1, "casting to xs:string"):
+`ds` = the shortest decimal digits that identify the double (first digit non-zero, no trailing zero),
+`e` = decimal exponent, value = d₁.d₂…dₙ × 10^e.
+* |value| in [0.000001, 1000000): written as the canonical xs:decimal;
+* otherwise: mantissa with one digit before the point and at least one after it, 'E', exponent without
+  plus sign or leading zeros (XSD canonical representation of xs:double). -/
+def doubleCanon (neg : Bool) (ds : Str) (e : Int) : Str :=
+  let body : Str :=
+    if -6 ≤ e && e < 6 then
+      if 0 ≤ e then
+        let k := e.toNat + 1
+        let ip := ds.take k ++ List.replicate (k - ds.length) '0'
+        let fp := ds.drop k
+        if fp.isEmpty then ip else ip ++ '.' :: fp
+      else
+        '0' :: '.' :: (List.replicate ((-e).toNat - 1) '0' ++ ds)
+    else
+      let m := match ds with
+        | [] => ['0', '.', '0']
+        | [d] => [d, '.', '0']
+        | d :: r => d :: '.' :: r
+      m ++ 'E' :: integerCanon e
+  if neg then '-' :: body else body
+
+/-- an exact finite double `±n / 2^k`, or a special value -/
+inductive SDbl
+  | nan | pinf | ninf
+  | fin (neg : Bool) (n k : Nat)
+deriving DecidableEq, Repr
+
+/-- operands; a double carries its shortest digits / exponent for the cast to string (zero: `ds = []`) -/
+inductive SAtom
+  | str (s : Str) | untyped (s : Str) | bool (b : Bool) | int (v : Int) | dec (v : DecVal)
+  | dbl (x : SDbl) (ds : Str) (e : Int)
+deriving Repr
+
+inductive SType
+  | string | untypedAtomic | boolean
+  | integer (lo hi : Option Int)      -- minInclusive / maxInclusive
+  | decimal
+  | double (xsd11 : Bool)             -- also xs:float: same lexical space
+deriving Repr
+
+inductive DClass | nan | pinf | ninf | num
+deriving DecidableEq, Repr
+
+inductive SVal
+  | str (s : Str) | untyped (s : Str) | bool (b : Bool) | int (v : Int) | dec (v : DecVal) | dbl (c : DClass)
+deriving Repr
+
+/-- F&O 19.1.1: the string of an atomic value -/
+def castToString : SAtom → Str
+  | .str s => s
+  | .untyped s => s
+  | .bool b => if b then "true".toList else "false".toList
+  | .int v => integerCanon v
+  | .dec v => decimalCanon v
+  | .dbl x ds e =>
+    match x with
+    | .nan => "NaN".toList
+    | .pinf => "INF".toList
+    | .ninf => "-INF".toList
+    | .fin neg n _ => if n == 0 then (if neg then "-0".toList else "0".toList) else doubleCanon neg ds e
+
+/-- truncation toward zero of `num / den` -/
+def truncDiv (num : Int) (den : Nat) : Int := Int.tdiv num den
+
+def doubleClass (t : Str) : DClass :=
+  if t == "NaN".toList then .nan
+  else if t == "INF".toList || t == "+INF".toList then .pinf
+  else if t == "-INF".toList then .ninf
+  else .num
+
+/-- F&O 19.1 – 19.3 for this corner; `none` = a dynamic error (FORG0001 / FOCA0002) -/
+def castSpec (a : SAtom) (t : SType) : Option SVal :=
+  match t with
+  | .string => some (.str (castToString a))
+  | .untypedAtomic => some (.untyped (castToString a))
+  | .boolean =>
+    match a with
+    | .str s | .untyped s => let c := wsCollapse s; if booleanLex c then some (.bool (booleanVal c)) else none
+    | .bool b => some (.bool b)
+    | .int v => some (.bool (v != 0))                       -- 19.1.? "false if 0, +0, -0, NaN; else true"
+    | .dec v => some (.bool (v.num != 0))
+    | .dbl x _ _ => some (.bool (match x with | .nan => false | .fin _ n _ => n != 0 | _ => true))
+  | .integer lo hi =>
+    let check (v : Int) : Option SVal := if inFacets lo hi v then some (.int v) else none   -- 19.3.? facets: FORG0001
+    match a with
+    | .str s | .untyped s => let c := wsCollapse s; if integerLex c then check (integerVal c) else none
+    | .bool b => check (if b then 1 else 0)
+    | .int v => check v
+    | .dec v => check (truncDiv v.num (10 ^ v.scale))      -- 19.1.2.3: truncation toward zero
+    | .dbl x _ _ =>
+      match x with
+      | .fin neg n k => check (truncDiv (if neg then -(n : Int) else n) (2 ^ k))
+      | _ => none                                          -- NaN, INF: FOCA0002
+  | .decimal =>
+    match a with
+    | .str s | .untyped s => let c := wsCollapse s; if decimalLex c then some (.dec (decimalVal c)) else none
+    | .bool b => some (.dec ⟨if b then 1 else 0, 0⟩)
+    | .int v => some (.dec ⟨v, 0⟩)
+    | .dec v => some (.dec v)
+    | .dbl x _ _ =>
+      match x with
+      | .fin neg n k => some (.dec ⟨(if neg then -(n : Int) else n) * 5 ^ k, k⟩)   -- n/2^k = n·5^k/10^k, exact
+      | _ => none                                          -- FOCA0002
+  | .double xsd11 =>
+    match a with
+    | .str s | .untyped s => let c := wsCollapse s; if doubleLex xsd11 c then some (.dbl (doubleClass c)) else none
+    | .dbl x _ _ => some (.dbl (match x with | .nan => .nan | .pinf => .pinf | .ninf => .ninf | .fin _ _ _ => .num))
+    | _ => some (.dbl .num)
+
 end EPV.XSD
